@@ -55,7 +55,7 @@ THEOREMS = [
     "Typedpy.C07.cache_nested_example",
 ]
 RULE = ("class hierarchies (1-3 levels of single inheritance, fresh classes per case) with 1-7 Integer / nested "
-        "fields (nested classes directly, in Array, in Set; nesting depth <= 3), per-class _serialization_mapper "
+        "fields (nested classes directly, in Array, in Set — every other single-level Set item class is an ImmutableStructure; nesting depth <= 3), per-class _serialization_mapper "
         "drawn from {none, dict rename incl. swaps / rotations / chains on the current key / renames onto other "
         "field names / dotted keys / DoNotSerialize / explicit '<field>._mapper' entries, TO_LOWERCASE, "
         "TO_CAMELCASE, lists of 1-3 of these}; field names from 20 shapes (a_b1, x, aB, first_name, X, firstName, "
@@ -77,7 +77,12 @@ RULE = ("class hierarchies (1-3 levels of single inheritance, fresh classes per 
         "field-name args, optional rename of another field, top / nested / Array-nested, explicit mapper= or class-level, "
         "camel on/off: specified document and round trip with the inverse function); an ORACLE-ONLY stream of String / Boolean / "
         "Float / Integer leaves incl. falsy values under collision-free mappers (flat, nested, Array-nested): specified "
-        "document and round trip; 40% of the cases carry a HISTORY of 1-3 earlier calls in the same "
+        "document and round trip; three further ORACLE-ONLY streams: holders with POSITIONAL items of several classes sharing a "
+        "field name (Array(items=[A, B])) serialized before / after the item classes on their own (each class alone must "
+        "keep its own keys; entries of aggregated_mapper_by_class must never change once filed — the latter also checked after "
+        "every call of every modelled history); nested values that are instances of a SUBCLASS of the declared class (direct "
+        "field and Array item) x camel_case_convert (own class's keys, camelCased); a BASE class round trip first (on its own "
+        "or reached as a nested class) and then its field-adding SUBCLASS's in one process; 40% of the cases carry a HISTORY of 1-3 earlier calls in the same "
         "process on the same class objects (same class with the other / same camel flag, same / other override, "
         "a nested class serialized on its own first), plus a directed stream of [camel, plain, camel] and [plain, "
         "camel] histories per class (process-wide cache aggregated_mapper_by_class); every call of a history is "
@@ -119,6 +124,12 @@ def judge(case, impl, model):
         return S.judge_fc(case, impl)
     if case.get("oracle") == "scalar":
         return S.judge_scalar(case, impl)
+    if case.get("oracle") == "positional":
+        return S.judge_positional(case, impl)
+    if case.get("oracle") == "subclass":
+        return S.judge_subclass(case, impl)
+    if case.get("oracle") == "inherit":
+        return S.judge_inherit(case, impl)
     cd = case["cls"]
     pre = case.get("pre") or []
     hist = ""
@@ -127,6 +138,10 @@ def judge(case, impl, model):
                 + "; ".join(f"{c['target']} camel={c['camel']} override={'yes' if c['explicit'] else 'no'}" for c in pre)
                 + "]")
     msg, fails = judge_call(cd, case, impl, model, hist)
+    if impl.get("cache_mutated"):
+        fails.append(("cache-entry-mutated:aggregated_mapper_by_class",
+                      "an entry of the process-wide mapper cache changed after it was filed: "
+                      + json.dumps(impl["cache_mutated"])[:500] + hist))
     ipre, mpre = impl.get("pre") or [], model.get("pre") or []
     if pre and (len(ipre) != len(pre) or len(mpre) != len(pre)):
         return msg or "history length mismatch between case, real run and model", fails
